@@ -1160,6 +1160,13 @@ def invariant_broken(prog, entry):
         try:
             p_c09.validate_first_rule(prog, tmp)
             v = [o for o in tmp.obs if o['verdict'] == VIOL]
+            if not v:
+                # ... or a reader that stores fewer strings than the dimensions declare (a store that depends on the characters read)
+                g2 = [f_ for f_ in prog.fns('ezc3d::c3d::readParam') if len(f_.params) == 2]
+                if g2:
+                    tmp2 = _R('x', 'quick', '')
+                    CR.string_assembly_rule(prog, tmp2, 'assembly', g2[0])
+                    v = [o for o in tmp2.obs if o['verdict'] == VIOL and 'is stored' in o['detail'] and 'only when' in o['detail']]
             _broken_cache[key] = ('%s: %s' % (v[0]['instance'], v[0]['detail'][:220])) if v else None
         except Exception:
             _broken_cache[key] = None
